@@ -4,6 +4,8 @@
 
 package gonum
 
+import "gonum.org/v1/gonum/internal/verifhook"
+
 // Ilaenv returns algorithm tuning parameters for the algorithm given by the
 // input string. ispec specifies the parameter to return:
 //
@@ -24,6 +26,9 @@ package gonum
 //
 // Ilaenv is an internal routine. It is exported for testing purposes.
 func (impl Implementation) Ilaenv(ispec int, name string, opts string, n1, n2, n3, n4 int) int {
+	if v, ok := verifhook.Ilaenv(ispec, name, opts, n1, n2, n3, n4); ok {
+		return v
+	}
 	// TODO(btracey): Replace this with a constant lookup? A list of constants?
 	sname := name[0] == 'S' || name[0] == 'D'
 	cname := name[0] == 'C' || name[0] == 'Z'
